@@ -21,7 +21,9 @@ func init() { register("C12", genC12) }
 // "restoreEvt" is the platform event "restore requested" arriving while the runtime skipped
 // restore/next and is parked in its first next (the only other realistic point, a runtime parked
 // in restore/next, is part of the "restnext" step itself).
-var c12Ops = []string{"next", "nextHold", "offer", "restoreEvt", "resp", "respStale", "err", "initerr", "restnext", "resterr", "unknown", "badmethod"}
+// "respBig" is a response for the current id whose body exceeds the limit (413; the invocation is then over like
+// after any response: next blocks and delivers the following invocation).
+var c12Ops = []string{"next", "nextHold", "offer", "restoreEvt", "resp", "respStale", "err", "initerr", "restnext", "resterr", "unknown", "badmethod", "respBig"}
 
 type c12Desc struct {
 	Snapshot bool     `json:"snapshot"`
@@ -67,6 +69,9 @@ func genC12(tier string, seed int64) []Case {
 			if (op == "offer" || op == "restoreEvt") && !contains(cur, "nextHold") {
 				continue // nothing to offer to
 			}
+			if op == "respBig" && !(contains(cur, "next") && len(cur) <= 2) {
+				continue // a 6 MiB upload: only where it can be accepted, and not in every position
+			}
 			rec(append(cur, op))
 		}
 	}
@@ -77,7 +82,7 @@ func genC12(tier string, seed int64) []Case {
 	if tier == "thorough" {
 		n = 15000
 	}
-	prog := []string{"next", "resp", "next", "err", "next", "nextHold", "offer", "resp", "restoreEvt"}
+	prog := []string{"next", "resp", "next", "err", "next", "nextHold", "offer", "resp", "restoreEvt", "respBig"}
 	for i := 0; i < n; i++ {
 		l := 5 + r.Intn(4)
 		var seq []string
@@ -296,7 +301,7 @@ func runC12(c *Ctx, d c12Desc) {
 			if exp.status == 200 {
 				c.Check(got.Status == 200 && got.ReqID() == m.curID && bytes.Equal(got.Body, m.curBody), "repeated_next_same_invocation", "C12/repeated-next", "next repeated before responding did not return the same invocation", []string{got.ReqID(), m.curID})
 			}
-		case "resp", "err", "respStale":
+		case "resp", "err", "respStale", "respBig":
 			id := m.curID
 			if op == "respStale" {
 				id = "11111111-2222-3333-4444-555555555555"
@@ -308,6 +313,8 @@ func runC12(c *Ctx, d c12Desc) {
 				id = "00000000-0000-0000-0000-000000000000" // nothing in flight: any id is wrong
 			}
 			switch {
+			case op == "respBig" && m.state == "Running":
+				exp = c12Expect{status: 413}
 			case op != "respStale" && m.state == "Running":
 				exp = c12Expect{status: 202}
 			case op != "respStale" && m.state == "ResponseSent":
@@ -315,7 +322,12 @@ func runC12(c *Ctx, d c12Desc) {
 			default:
 				exp = c12Expect{status: 400, etype: "InvalidRequestID"}
 			}
-			if op == "err" {
+			if op == "respBig" {
+				got = conn.Respond(id, bigBody, nil)
+				if exp.status == 413 && got.Status == 413 {
+					m.state = "ResponseSent" // answered (with an error to the caller): the invocation is over
+				}
+			} else if op == "err" {
 				got = conn.Error(id, []byte(`{"errorMessage":"x"}`), map[string]string{"Lambda-Runtime-Function-Error-Type": "Function.X"})
 			} else {
 				got = conn.Respond(id, []byte(fmt.Sprintf("resp-%d", step)), nil)
@@ -425,6 +437,8 @@ func runC12(c *Ctx, d c12Desc) {
 		c.SetSample(sampleLog(w, 120))
 	}
 }
+
+var bigBody = make([]byte, maxPayload+77)
 
 func classify(st int) string {
 	switch {
